@@ -6,6 +6,9 @@ namespace {
 
 const int NDS = 4, MAXRANK = 4;
 
+// dataset names: each one is a proper prefix of the next, so a name lookup that compares a prefix only selects the wrong dataset
+static std::string sname(int i) { return "sds" + std::string("abcdefghijklmnop").substr(0, (size_t)(i % 16)); }
+
 struct NT {
     int32 code;
     int   size;
@@ -227,7 +230,7 @@ struct SdArray : Profile {
         MDs &m = s.ds[i];
         if (m.sdsid != FAIL)
             return m.sdsid;
-        int32 ix = SDnametoindex(s.sd, strf("sds%d", i).c_str());
+        int32 ix = SDnametoindex(s.sd, sname(i).c_str());
         if (ix == FAIL)
             s.ctx.fail("lookup-failed", "lookup-failed", strf("SDnametoindex(sds%d) failed for an existing dataset", i));
         m.sdsid = SDselect(s.sd, ix);
@@ -264,7 +267,7 @@ struct SdArray : Profile {
             s.ctx.fail("info-failed", "info-failed", strf("SDgetinfo(sds%d) failed (%s)", i, when));
         s.ctx.st.checks++;
         // the flavour bits may come back differently (native is reported as little-endian on this machine)
-        if (rank != m.rank || (nt & 0xfff) != NTS[m.nt].code || strcmp(nm, strf("sds%d", i).c_str()) != 0)
+        if (rank != m.rank || (nt & 0xfff) != NTS[m.nt].code || strcmp(nm, sname(i).c_str()) != 0)
             s.ctx.fail("info-mismatch", "info-mismatch",
                        strf("SDgetinfo(sds%d) (%s): name '%s' rank %d type %d, model rank %d type %d", i, when, nm, (int)rank,
                             (int)nt, m.rank, (int)(NTS[m.nt].code | FLAV[m.flav])));
@@ -367,7 +370,7 @@ struct SdArray : Profile {
                     if (unl)
                         dims[0] = SD_UNLIMITED;
                     int   nt   = modn(o.arg(6), NNT), fl = modn(o.arg(7), 3);
-                    int32 sds  = SDcreate(s.sd, strf("sds%d", di).c_str(), NTS[nt].code | FLAV[fl], rank, dims);
+                    int32 sds  = SDcreate(s.sd, sname(di).c_str(), NTS[nt].code | FLAV[fl], rank, dims);
                     ctx.tr((uint64_t)(sds != FAIL));
                     if (sds == FAIL)
                         ctx.fail("create-refused", "create-refused",
